@@ -793,6 +793,11 @@ Qed.
    iteration order is not longer than the set).  It is necessary: `C06_total_needs_order_len`
    exhibits an `order` satisfying `order_In` (every element three times) on which find_path
    runs out of fuel.  The runnable instance `isort` satisfies it (`isort_len`). *)
+(* a PURE path function for the consumers that take one (C02's extractor, C13's final walk): the list
+   find_path returns, [] where it raises KeyError *)
+Definition fpathf (order : list Z -> list Z) (s : db) (a b : Z) : list Z :=
+  match find_path order s a b with Some (_, PathOk p) => p | _ => [] end.
+
 Section C06_total.
 Variable order : list Z -> list Z.
 Hypothesis order_In : forall l x, In x (order l) <-> In x l.
@@ -1090,6 +1095,29 @@ Proof.
   split; intros (b & M & S); exists b; (split; [exact M|]); apply (C06_same_is_scc ops qs s rs F E a b); exact S.
 Qed.
 
+(* (CLAUSES C06 (c)3) on every reachable state, for labels with the same representative, the path function
+   answers a non-empty list that starts at the first label, ends at the second and follows recorded edges
+   only - the contract `fpath_ok` that C02_closed and C13's final walk assume of their path oracle, plus the
+   clause "follows recorded edges only"; for labels with different representatives it answers [] *)
+Theorem C06_path_function : forall ops s rs,
+  exec order init ops = Some (s, rs) ->
+  forall a b,
+    (repf s a = repf s b ->
+       fpathf order s a b <> [] /\ hd 0 (fpathf order s a b) = a /\ last (fpathf order s a b) 0 = b /\
+       epath (recorded ops) (fpathf order s a b)) /\
+    (repf s a <> repf s b -> fpathf order s a b = []).
+Proof.
+  intros ops s rs E a b.
+  pose proof (exec_wf order order_len _ _ _ _ wf_init E) as W.
+  destruct (C06_find_path_total ops s rs a b E) as (s' & r & F & Hno & Hyes).
+  unfold fpathf. rewrite F. split.
+  - intros R. apply (repf_same s a b W) in R. destruct (Hyes R) as (p & -> & Hh & Hl & He).
+    destruct p as [|x p]; [discriminate Hh|]. simpl in Hh. injection Hh as ->.
+    split; [discriminate|]. split; [reflexivity|]. split; assumption.
+  - intros R. assert (N : ~ same s a b) by (intros S; apply R; apply (repf_same s a b W); exact S).
+    rewrite (Hno N). reflexivity.
+Qed.
+
 End C06_total.
 
 Theorem C06_total_needs_order_len :
@@ -1273,6 +1301,18 @@ Proof.
     [vm_compute; reflexivity|reflexivity].
 Qed.
 
+(* covers C06_path_function: on the state after the neutral suffix, the path function from 3 to 8 *)
+Example C06_path_function_nonvacuous :
+  fpathf isort a6_sN 3 8 = [3; 4; 2; 8] /\ epath (recorded (a6_ops ++ Connect :: a6_ns)) (fpathf isort a6_sN 3 8) /\
+  fpathf isort a6_sN 5 1 = [].
+Proof.
+  destruct (C06_path_function isort isort_In isort_len _ a6_sN a6_rsN a6_execN 3 8) as (Y & _).
+  destruct (C06_path_function isort isort_In isort_len _ a6_sN a6_rsN a6_execN 5 1) as (_ & N).
+  split; [vm_compute; reflexivity|]. split.
+  - apply Y. vm_compute. reflexivity.
+  - apply N. vm_compute. discriminate.
+Qed.
+
 (* covers C06_equivalent_order_independent: the stale history above under the DESCENDING iteration order
    (another representative in several classes) answers equivalent(5,7) and equivalent(5,9) alike *)
 Definition rsort (l : list Z) : list Z := rev (isort l).
@@ -1340,3 +1380,4 @@ Print Assumptions C06_equivalent_order_independent.
 Print Assumptions C06_same_is_scc.
 Print Assumptions C06_repf_is_scc.
 Print Assumptions C06_verified_scc.
+Print Assumptions C06_path_function.
